@@ -2,13 +2,96 @@
 from . import common
 from families import arith
 
+def literal_jobs(tier):
+    import z3, re
+    from mirsym import harness as H, models, srcsym as S, family as F
+    from mirsym.core import Panic, PathEnd, Unsupported
+    D = S.in_set(list(b'0123456789'))
+    POS = re.compile(rb'^t\.sd:(\d+):(\d+): ')
+    def job(name, parts, digit_names, neg=False, expect_ctx=None):
+        """parts: source parts; digit_names: names of the symbolic digits in order (most significant first) together with fixed digits as ints"""
+        def path_fn(M):
+            M.symvars = {}
+            src = S.text(M, parts)
+            try: code, out, err = H.run_cli(M, 't.sd', list(src))
+            except Panic as e: return {'viol': 'panic: %s' % str(e)[:150], 'wit': [], 'code': None, 'out': '', 'err': ''}
+            r, m = F.sat_model(M.solver)
+            if r != z3.sat: raise PathEnd('infeasible')
+            val = z3.BitVecVal(0, 128)          # the decimal value, exactly, in 128 bits
+            for d in digit_names:
+                dv = z3.ZeroExt(120, M.symvars[d] - 0x30) if isinstance(d, str) else z3.BitVecVal(d, 128)
+                val = val * 10 + dv
+            mag = val
+            if neg: val = -val
+            op = models.pieces(out); ep = models.pieces(err)
+            obs = {'viol': None, 'code': code, 'nq': 2}
+            obs['wit'] = list(bytes(m.eval(e.z(), model_completion=True).as_long() for e in src))
+            obs['out'] = F.eval_pieces(m, op).decode('latin1'); obs['err'] = F.eval_pieces(m, ep).decode('latin1')
+            s = M.solver
+            fits = z3.ULE(mag, z3.BitVecVal(2**63 - 1, 128))            # must be accepted
+            # `-9223372036854775808` written as a literal: its value fits although its magnitude does not; the statement allows both an
+            # error and the value -2^63 there
+            may_accept = z3.ULE(mag, z3.BitVecVal(2**63 if (neg and expect_ctx is None) else 2**63 - 1, 128))
+            # a literal denotes its decimal value up to 2^63-1 (the magnitude is lexed first; `-` negates a literal that fits)
+            def sat(cond):
+                s.push(); s.add(cond); r2 = s.check(); mm = s.model() if r2 == z3.sat else None; s.pop()
+                if r2 == z3.unknown: raise Unsupported('solver unknown (literal)')
+                return mm
+            if code == 0:
+                mm = sat(z3.Not(may_accept))
+                if mm is not None: obs['viol'] = 'a literal above 2^63-1 was accepted'; obs['wit'] = list(bytes(mm.eval(e.z(), model_completion=True).as_long() for e in src)); return obs
+                if len(op) < 1: obs['viol'] = 'no output'; return obs
+                # printed value == decimal value
+                want = val if expect_ctx is None else expect_ctx(val)
+                if not isinstance(op[0], bytes) and op[0][0] == 'dec': got = z3.SignExt(64, op[0][1])
+                elif isinstance(op[0], bytes): got = z3.BitVecVal(int(op[0].split(b'\n')[0]), 128)
+                else: raise Unsupported('unexpected output piece')
+                mm = sat(got != want)
+                if mm is not None: obs['viol'] = 'printed value differs from the decimal value of the literal'; obs['wit'] = list(bytes(mm.eval(e.z(), model_completion=True).as_long() for e in src))
+            elif code == 103:
+                mm = sat(fits)
+                if mm is not None and b'too high' in (ep[0] if ep and isinstance(ep[0], bytes) else b'') + b''.join(p for p in ep if isinstance(p, bytes)):
+                    obs['viol'] = 'a literal that fits was rejected'; obs['wit'] = list(bytes(mm.eval(e.z(), model_completion=True).as_long() for e in src))
+            else: obs['viol'] = 'exit %s' % code
+            return obs
+        def post(rows, res, binary, wd):
+            for r in rows:
+                o = r['obs']; res['obligations'] += 2; res['discharged'] += 2 - (1 if o['viol'] else 0)
+                if not o['wit']: res['inconclusive'].append('literal job without witness: %r' % o['viol']); continue
+                w = bytes(o['wit']); nat = F.native_run(binary, w, wd); res['replayed'] += 1
+                if nat[0] == o['code'] and nat[1] == o['out'].encode('latin1') and nat[2] == o['err'].encode('latin1'): res['replay_ok'] += 1
+                elif not o['viol']: res['inconclusive'].append('engine/native disagreement on %r: %r vs %r' % (w, nat, (o['code'], o['out'], o['err'])))
+                if len(res['samples']) < 1: res['samples'].append({'script_bytes': repr(w), 'exit': o['code'], 'stdout': o['out'][:40]})
+                if o['viol']:
+                    # native confirmation against python's exact integers
+                    txt = w.decode('latin1'); mm = re.search(r'-?\s*[0-9_]+', txt[txt.index('(') + 1:] if '(' in txt else txt)
+                    res['violations'].append({'aspect': 'literal', 'role': 'literal:%s' % name.split('-')[0], 'what': '%s: %r -> native exit %s %r' % (o['viol'], w, nat[0], (nat[1] + nat[2])[:100]), 'script': w, 'ext': 'sd'})
+        return {'name': name, 'path_fn': path_fn, 'post': post}
+    J = []
+    def sd(n, p='d'): return [('sym', '%s%d' % (p, i), D) for i in range(n)]
+    for n in (1, 2, 3):
+        J.append(job('plain-%d' % n, [b'print('] + sd(n) + [b')\n'], ['d%d' % i for i in range(n)]))
+        J.append(job('neg-%d' % n, [b'print(-'] + sd(n) + [b')\n'], ['d%d' % i for i in range(n)], neg=True))
+    J.append(job('underscore-3', [b'print(', ('sym', 'd0', D), b'_', ('sym', 'd1', D), b'__', ('sym', 'd2', D), b'_)\n'], ['d0', 'd1', 'd2']))
+    big = [int(ch) for ch in '92233720368547758']
+    J.append(job('boundary-19', [b'print(92233720368547758'] + sd(2) + [b')\n'], big + ['d0', 'd1']))
+    J.append(job('boundary-19-neg', [b'print(-92233720368547758'] + sd(2) + [b')\n'], big + ['d0', 'd1'], neg=True))
+    J.append(job('boundary-19-underscore', [b'print(9_223_372_036_854_775_8'] + sd(2) + [b')\n'], big + ['d0', 'd1']))
+    J.append(job('boundary-20', [b'print(1844674407370955161'] + sd(1) + [b')\n'], [int(ch) for ch in '1844674407370955161'] + ['d0']))
+    # a literal after a binary minus: `x - L` with x = -1: defined iff L <= 2^63-1, value -1 - L
+    J.append(job('after-minus', [b'x := -1\nprint(x - 92233720368547758'] + sd(2) + [b')\n'], big + ['d0', 'd1'], expect_ctx=lambda v: -1 - v))
+    J.append(job('after-minus-small', [b'x := 5\nprint(x -'] + sd(2) + [b')\n'], ['d0', 'd1'], expect_ctx=lambda v: 5 - v))
+    return J
+
 def run(tier, seed):
     c = common.Check('C06', tier, seed, 'symbolic execution of main (MIR) with unconstrained 64-bit literal holes + z3; lock-step reference semantics; native replay')
     c.functions |= {'main', 'run', 'eval_prog', 'eval_stmt', 'eval_expr', 'apply_binary_operation', 'bind_next', 'bind_next_name', 'binary_operation_assign',
                     'Lexer::next', 'Lexer::next_int', '__parse__Prog::__reduce*', 'builtins::fns::print', 'builtins::fns::render', 'eval_err_to_stacktrace'}
-    c.bounds = {'operands': 'all of i64 x i64 (no bound)', 'range_length': '<= 4 elements (quick) / 6 (thorough)'}
+    c.bounds = {'operands': 'all of i64 x i64 (no bound)', 'range_length': '<= 4 elements (quick) / 6 (thorough)', 'literals': 'digit strings of 1-3 symbolic digits (plain, negated, with `_`), 19-digit literals 92233720368547758DD and a 20-digit one with symbolic last digits (plain, negated, with `_`, after a binary minus)'}
     c.outside = ['ranges longer than the stated length', 'integer literals: see the literal sub-check bounds']
     c.run_family('arith', arith.templates(tier), ('exit', 'stdout', 'stderr-empty', 'message', 'panic', 'hang'), arith.role)
+    # integer literals: digit strings with symbolic digits through the real lexer / parser, value = sum d_i 10^i, error iff > 2^63-1
+    c.run_jobs('literals', literal_jobs(tier), par_jobs=8, par_paths=2)
     if tier == 'thorough':
         # E2: the compiled kernel under Kani/CBMC against an i128 oracle (independent of the std models of E1)
         from . import kani_driver
